@@ -21,6 +21,7 @@ pub fn property() -> Property {
             name: "trains",
             rule: "see property rule",
             cases: (720_000, 4_000_000),
+            fuzz_decode: Some(crate::fuzzdec::c11_case),
             strategy,
             check,
             required_classes: &[
